@@ -155,7 +155,7 @@ void nan_case(Ctx& c, uint64_t idx) {
           c.viol("nan:C13/dependent-output-not-nan/" + e.name + "/arg" + std::to_string(ai) + "/out" + std::to_string(k), cls,
                  J().raw("args", jargs(e, a)).str("hexargs", hexargs(e, a)).f("valid_value_of_arg", keep).raw("baseline", jvals(out0)).raw("with_nan", jvals(v)).i("ellipsoid", g_e));
         else c.event("nan/dependent-output-is-nan");
-      } else if (!v[k].same(out0[k]) && !single_object && !((v[k].k == 's' || v[k].k == 'z' || v[k].k == 'd') && v[k].nanmark())) {
+      } else if (!v[k].same(out0[k]) && !single_object && v[k].k != 'x' && !((v[k].k == 's' || v[k].k == 'z' || v[k].k == 'd') && v[k].nanmark())) {
         // did not move in 6 re-draws: look harder before calling it independent
         if (!confirmed) { a[ai] = keep; redraw_any(60); a[ai] = std::numeric_limits<double>::quiet_NaN(); confirmed = true; }
         if (dep_any[k]) { c.event("nan/structurally-dependent-output-changed"); if (false) { if (!v[k].nanmark()) c.viol("nan:C13/dependent-output-not-nan/" + e.name + "/arg" + std::to_string(ai) + "/out" + std::to_string(k), cls,
